@@ -28,8 +28,25 @@ def W(wave):
     return wave
 
 
+def odd_bank(name, flip):
+    """a perfect-reconstruction bank of ODD length: the PyWavelets bank `name` with one zero tap appended to the analysis filters and
+    prepended to the synthesis filters (flip: the other way round).  In the library's convention (analysis: full convolution, keep
+    the odd samples; synthesis: upsample, convolve, drop L-2 samples at each end) the padded bank reconstructs exactly like the
+    original one.  PyWavelets itself pads odd-length banks to even length, so it is no oracle here: only the round trip is checked."""
+    w = pywt.Wavelet(name)
+    d0, d1, r0, r1 = [np.asarray(f, dtype=float) for f in w.filter_bank]
+    z = np.zeros(1)
+    if flip:
+        return np.r_[z, d0], np.r_[z, d1], np.r_[r0, z], np.r_[r1, z]
+    return np.r_[d0, z], np.r_[d1, z], np.r_[z, r0], np.r_[z, r1]
+
+
 def lib_wave(wave, inverse):
     """what to hand to pytorch_wavelets"""
+    if isinstance(wave, str) and wave.startswith('odd:'):
+        _, nm, fl = wave.split(':')
+        h0, h1, g0, g1 = odd_bank(nm, fl == '1')
+        return (g0, g1) if inverse else (h0, h1)
     if isinstance(wave, str) and wave.startswith('pair:'):
         a, b = W(wave)
         f = [a.rec_lo, a.rec_hi, b.rec_lo, b.rec_hi] if inverse else [a.dec_lo, a.dec_hi, b.dec_lo, b.dec_hi]
@@ -44,6 +61,8 @@ def lib_wave(wave, inverse):
 
 
 def filt_len(wave):
+    if isinstance(wave, str) and wave.startswith('odd:'):
+        return pywt.Wavelet(wave.split(':')[1]).dec_len + 1
     if isinstance(wave, str) and wave.startswith('pair:'):
         return max(w.dec_len for w in W(wave))
     if isinstance(wave, str):
